@@ -765,6 +765,11 @@ class BaseConnector:
             if self._available_connections(key) > 0:
                 break
             attempts += 1
+            # We were woken up but cannot use the wake-up (the capacity it
+            # announced was taken meanwhile, e.g. by a waiter of our key that
+            # was woken just before us): pass it on, a waiter of another key
+            # may be able to use the slot that was freed.
+            self._release_waiter()
 
     async def _get(
         self, key: "ConnectionKey", traces: list["Trace"]
